@@ -120,6 +120,7 @@ pub struct Stats {
     pub paths: BTreeSet<String>,
     pub viol: SigBag,
     pub tombstone_max_pct: u64,
+    pub degraded_timed: u64,
 }
 
 #[derive(Clone, Debug, serde::Serialize, serde::Deserialize)]
@@ -157,6 +158,13 @@ fn alphabet(dim: usize, scale: f32) -> Vec<TOp> {
     v
 }
 
+/// Counters that move when a timed answer was produced under a timeout, an open circuit
+/// breaker or load shedding (the execution path alone does not tell).
+fn degradation_counters(te: &Te) -> u64 {
+    let s = te.engine.stats();
+    s.hot_tier_timeouts + s.cold_tier_timeouts + s.partial_results_returned + s.queries_rejected + s.circuit_breaker_rejections + s.worker_saturation_count
+}
+
 fn sweep_pure(te: &Te, rt: &tokio::runtime::Runtime, model: &BTreeMap<u64, Vec<f32>>, case: &Case, st: &mut Stats, entry: &str) {
     let metric = te.cfg.metric();
     let hot_ids: BTreeSet<u64> = te.engine.hot_tier().snapshot_doc_ids().into_iter().collect();
@@ -174,7 +182,12 @@ fn sweep_pure(te: &Te, rt: &tokio::runtime::Runtime, model: &BTreeMap<u64, Vec<f
                         .map(|all| all.into_iter().enumerate().map(|(i, (r, p))| (if i == 0 { q.clone() } else { q2.clone() }, r, format!("{p:?}"))).collect())
                         .map_err(|e| format!("{e:#}"))
                 }
-                _ => rt.block_on(te.engine.knn_search_with_timeouts_with_ef(q, k, None)).map(|(r, p)| vec![(q.clone(), r, format!("{p:?}"))]).map_err(|e| format!("{e:#}")),
+                _ => {
+                    let before = degradation_counters(te);
+                    let r = rt.block_on(te.engine.knn_search_with_timeouts_with_ef(q, k, None));
+                    let degraded_now = degradation_counters(te) != before;
+                    r.map(|(r, p)| vec![(q.clone(), r, if degraded_now { "Degraded".to_string() } else { format!("{p:?}") })]).map_err(|e| format!("{e:#}"))
+                }
             };
             let name = match entry {
                 "sync" => "knn_search",
@@ -293,10 +306,14 @@ fn sweep(te: &Te, rt: &tokio::runtime::Runtime, model: &BTreeMap<u64, Vec<f32>>,
             }
             // 4. timed path (generous timeouts: a degraded answer is excluded by the statement)
             st.searches += 1;
+            let deg_before = degradation_counters(te);
             match rt.block_on(te.engine.knn_search_with_timeouts_with_ef(q, k, Some(64))) {
                 Ok((res, path)) => {
                     st.paths.insert(format!("timed:{path:?}"));
-                    let degraded = format!("{path:?}") == "Degraded";
+                    let degraded = format!("{path:?}") == "Degraded" || degradation_counters(te) != deg_before;
+                    if degraded {
+                        st.degraded_timed += 1;
+                    }
                     if let Err((s, d)) = check_results(&sc, q, k, &res, degraded) {
                         fail(st, &format!("knn_search_with_timeouts[{path:?}]"), s, d, q, k, Some(64));
                         return;
@@ -462,8 +479,10 @@ pub fn run(tier: &str, replay: Option<&str>) -> i32 {
         tot.paths.extend(s.paths);
         tot.viol.merge(s.viol);
         tot.tombstone_max_pct = tot.tombstone_max_pct.max(s.tombstone_max_pct);
+        tot.degraded_timed += s.degraded_timed;
     }
     let mut ev = Evidence::new("C06", tier, "model_checking");
+    ev.set("timed_answers_produced_under_timeout_or_breaker_and_checked_for_soundness_only", tot.degraded_timed);
     let mut rep = Reporter::new("C06");
     rep.report_sigbag(&tot.viol);
     ev.set("states", tot.states.len() as u64);
@@ -477,7 +496,7 @@ pub fn run(tier: &str, replay: Option<&str>) -> i32 {
     ev.set("result_rows_checked", tot.results);
     ev.set("execution_paths_seen", tot.paths.iter().cloned().collect::<Vec<_>>());
     ev.assume("alphabet vectors are exactly unit length or far outside the engine's [0.98,1.02] pass-through band, so 1-dot and 1-cos agree to float tolerance");
-    ev.assume("timed path runs with the default (generous) timeouts on an idle machine; a response whose path is Degraded is only checked for soundness, not completeness");
+    ev.assume("the timed path runs with 60 s tier timeouts; an answer during which the engine's timeout / partial-result / breaker / shedding counters moved (the execution path alone does not tell) is checked for soundness only, as the statement exempts it from completeness");
     ev.violations = rep.violations as i64;
     ev.write();
     println!(
